@@ -653,6 +653,9 @@ pub fn run(ctx: &Ctx) -> (Report, PropertyMeta) {
     report.sections.push(json!({"part": "socket level, random segmentation", "cases": n}));
     report.merge(r);
 
+    if t == Tier::Thorough {
+        crate::fuzzing::campaign(ctx, &mut report, "wire", 240);
+    }
     let total = report.evaluations;
     health(&mut report, "cut-inside-item", total, 300);
     health_abs(&mut report, "several-items-in-one-read", 1000);
